@@ -152,7 +152,7 @@ theorem run_from_stage {g : Cfg} (ok : g.OK) : ∀ (A : Nat) (c : Conn) (n fuel 
     obtain ⟨hsame, hph, hsc, hstop, hmx, hsg, hwk⟩ := prePoll_same c n hsegs
     have hst0 := hst.cong hph hsc hstop hmx hsame
     obtain ⟨c', r, hh, hl, ho⟩ := stage_poll ok hst0
-    have hpoll := hh.poll (F := 100000) (by rw [hsame.input]; exact hlen)
+    have hpoll := hh.pollT (by rw [hsame.input]; exact hlen)
     have hans0 : ans (prePoll c n none).env.tr = ans c.env.tr := by unfold ans; rw [hsame.rd, hsame.wr]
     have hem : c'.env.tr.endMode = c.env.tr.endMode ∧ ans c'.env.tr ≤ ans c.env.tr ∧ c'.env.segs = [] ∧
         ∀ s, s ∈ c.env.tr.events → s ∈ c'.env.tr.events :=
@@ -178,7 +178,7 @@ theorem run_from_stage {g : Cfg} (ok : g.OK) : ∀ (A : Nat) (c : Conn) (n fuel 
     obtain ⟨hsame, hph, hsc, hstop, hmx, hsg, hwk⟩ := prePoll_same c n hsegs
     have hst0 := hst.cong hph hsc hstop hmx hsame
     obtain ⟨c', r, hh, hl, ho⟩ := stage_poll ok hst0
-    have hpoll := hh.poll (F := 100000) (by rw [hsame.input]; exact hlen)
+    have hpoll := hh.pollT (by rw [hsame.input]; exact hlen)
     have hans0 : ans (prePoll c n none).env.tr = ans c.env.tr := by unfold ans; rw [hsame.rd, hsame.wr]
     have hsg' : c'.env.segs = [] := hl.segs.trans hsg
     have hlen' : 4 * c'.env.tr.input.length + 17 ≤ 100000 := by
